@@ -149,6 +149,12 @@ var c10Queries2 = []string{
 	"SELECT a FROM `t[keep=>7]`",
 	"SELECT a, `arr[(4:end)]` AS v FROM t",
 	"SELECT a FROM t WHERE `arr[3]` > 1",
+	// selectors the selector parser rejects (in FROM and in the select list)
+	"SELECT a FROM `t[x]`",
+	"SELECT a FROM `t[99999999999999999999]`",
+	"SELECT a FROM `t[(1:2:3)]`",
+	"SELECT a, `arr[x]` AS v FROM t",
+	"SELECT a FROM `t::arr[x]`",
 	// functions that need an option the caller did not pass, in goroutine-running positions
 	"SELECT SETVAR('k', a) FROM t",
 	"SELECT GETVAR('k') AS v, CONSTANT('k') AS c FROM t",
@@ -392,6 +398,15 @@ func H_C10_reexec() {
 		q.Exec()
 		verif.Drain()
 		q.Exec()
+	}
+	verif.Drain()
+	// whatever the first query did - rejected while it was built, failed, or
+	// succeeded - an ordinary query afterwards returns its rows
+	q2, err2 := New(doc, "SELECT a FROM t")
+	verif.Assert(err2 == nil, "later-query-is-built")
+	if err2 == nil {
+		res, err3 := q2.Exec()
+		verif.Assert(err3 == nil && len(res) == 2, "later-query-returns")
 	}
 	verif.Drain()
 	verif.Reach("end")
